@@ -75,16 +75,51 @@ func TestVerifC11BlockedWriter(t *testing.T) {
 				}
 			}
 			t0 := time.Now()
-			switch v.how {
-			case "remove":
-				blocked()
-			case "replaced-then-remove":
-				r2 := h.Add(ses, Peer{PeerID: "slow", Role: "receiver", ConnID: "c-slow-2"}, func(protocol.Envelope) error { return nil }, func() {})
-				blocked()
-				r2()
-			case "close-session":
-				h.CloseSession(ses)
-				blocked()
+			left := make(chan struct{})
+			go func() {
+				defer close(left)
+				switch v.how {
+				case "remove":
+					blocked()
+				case "replaced-then-remove":
+					r2 := h.Add(ses, Peer{PeerID: "slow", Role: "receiver", ConnID: "c-slow-2"}, func(protocol.Envelope) error { return nil }, func() {})
+					blocked()
+					r2()
+				case "close-session":
+					h.CloseSession(ses)
+					blocked()
+				}
+			}()
+			// an uninvolved peer of another session must be served meanwhile
+			bystander := make(chan bool, 1)
+			go func() {
+				other := fmt.Sprintf("other%d", i)
+				rm := h.Add(other, Peer{PeerID: "by", Role: "sender", ConnID: "c-by"}, func(protocol.Envelope) error { return nil }, func() {})
+				h.List(other)
+				ok := h.SendTo(other, "by", protocol.Envelope{Type: "x"})
+				rm()
+				bystander <- ok
+			}()
+			stuck := ""
+			select {
+			case <-left:
+			case <-time.After(8 * time.Second):
+				stuck = "the leaving/replacing call did not return within 8 s while the old connection's writer was blocked in send"
+			}
+			if stuck == "" {
+				select {
+				case <-bystander:
+				case <-time.After(8 * time.Second):
+					stuck = "operations of an uninvolved peer in another session did not finish within 8 s"
+				}
+			}
+			if stuck != "" {
+				close(release)
+				mu.Lock()
+				rec.Eval()
+				rec.Fail(t, "deadlock", fmt.Sprintf("%s | session with a peer whose writer is blocked in send, %d other peers, leave via %s", stuck, v.others, v.how))
+				mu.Unlock()
+				return
 			}
 			took := time.Since(t0)
 			if v.lastOut {
@@ -158,6 +193,13 @@ func TestVerifC11Stress(t *testing.T) {
 	}
 	var wg sync.WaitGroup
 	noop := func(protocol.Envelope) error { return nil }
+	var sendCalls atomic.Int64
+	flaky := func(protocol.Envelope) error { // a socket that breaks now and then
+		if sendCalls.Add(1)%7 == 0 {
+			return fmt.Errorf("write: broken pipe")
+		}
+		return nil
+	}
 	// churners: join / reconnect under the same id / leave
 	var connSeq atomic.Int64
 	for c := 0; c < 4; c++ {
@@ -169,7 +211,18 @@ func TestVerifC11Stress(t *testing.T) {
 				for !stop.Load() {
 					ses := sessions[int(x.Next()%2)]
 					peer := fmt.Sprintf("p%d", x.Next()%3)
-					r1 := h.Add(ses, Peer{PeerID: peer, Role: "receiver", ConnID: fmt.Sprintf("c%d", connSeq.Add(1))}, noop, func() {})
+					send := noop
+					linger := false
+					if x.Next()%3 == 0 {
+						send = flaky
+						linger = x.Next()%2 == 0
+					}
+					r1 := h.Add(ses, Peer{PeerID: peer, Role: "receiver", ConnID: fmt.Sprintf("c%d", connSeq.Add(1))}, send, func() {})
+					if linger {
+						// the handler of a broken connection needs a moment to notice and leave;
+						// until then the peer is still registered and others keep sending to it
+						time.Sleep(time.Duration(x.Next()%300) * time.Microsecond)
+					}
 					switch x.Next() % 4 {
 					case 0: // reconnect with the same id, old connection leaves afterwards
 						r2 := h.Add(ses, Peer{PeerID: peer, Role: "receiver", ConnID: fmt.Sprintf("c%d", connSeq.Add(1))}, noop, func() {})
